@@ -187,6 +187,16 @@ def sspLoop (s t : Nat) (demand : Int) : Nat → List Int → Int → Nat → Na
 def ssp (s t : Nat) (demand : Int) : SOut :=
   I.sspLoop s t demand (demand.toNat + 1) (List.replicate I.m 0) 0 0 0
 
+/-- `ssp` as a *certifying* algorithm: the answer is handed out only together with a certificate
+the verified checker accepts for `J` (the instance the caller wants solved – `I` itself, or the
+transshipment instance `I` was reduced from); otherwise the status is `negcycle` ("no certified
+answer").  `ssp_sound` (Theorems.lean): every answer handed out is right. -/
+def certify (J : Inst) (o : SOut) : SOut :=
+  match o.status with
+  | .feasible => if J.chkMinCost o.x o.pot o.cost then o else { o with status := .negcycle }
+  | .infeasible => if J.chkInfeas o.reach then o else { o with status := .negcycle }
+  | .negcycle => o
+
 end Inst
 
 /-- the transshipment instance of `min_cost_flow(graph, s, t, demand)` -/
@@ -201,5 +211,21 @@ def Inst.toST (I : Inst) : Inst × Int :=
     else if I.sup v < 0 then [Arc.mk v (I.n + 1) (- I.sup v) 0] else []
   let d := lsum (List.range I.n) fun v => if 0 < I.sup v then I.sup v else 0
   (Inst.ofST (I.n + 2) (I.arcs ++ extra) I.n (I.n + 1) d, d)
+
+/-- certified `min_cost_flow(graph, s, t, demand)` on the per-arc network -/
+def solveST (n : Nat) (arcs : List Arc) (s t : Nat) (d : Int) : Inst.SOut :=
+  let I := Inst.ofST n arcs s t d
+  Inst.certify I (I.ssp s t d)
+
+/-- certified transshipment solve (`network_simplex` instances): unbalanced supplies are infeasible
+with the whole node set as certificate; otherwise solve the s-t reduction and keep the original
+arcs' flows, the original nodes' potentials / reached set -/
+def solveTS (I : Inst) : Inst.SOut :=
+  if lsum (List.range I.n) I.sup != 0 then
+    Inst.certify I ⟨.infeasible, [], 0, [], List.range I.n, 0, 0⟩
+  else
+    let (J, d) := I.toST
+    let o := J.ssp I.n (I.n + 1) d
+    Inst.certify I { o with x := o.x.take I.m, pot := o.pot.take I.n, reach := o.reach.filter (· < I.n) }
 
 end Solvor.Flow
